@@ -185,6 +185,10 @@ def run(ctx):
                 rnd.shuffle(order)
                 order += [rnd.randrange(k) for _ in range(rnd.randint(0, 3))]
             traces.append(_assembly(n, k, order, rnd, tmp, sigmoid=rnd.random() < 0.7))
+        # hundreds of posterior samples in small chunks (production: 10 chains x 100 samples): three of the chunk files through
+        # save / load / combine, the incomplete matrix must refuse
+        big_n, big_k = (260, 300) if ctx.quick else (420, 900)
+        traces.append(_assembly(big_n, big_k, [big_k - 1, 0, big_k // 2], rnd, tmp, sigmoid=True, dup=False))
         for _ in range(40 if ctx.quick else 300):
             n, k = rnd.randint(0, 30), rnd.randint(1, 120)
             traces.append({"kind": "chunks", "n": n, "k": k, "chunks": _real_chunks(n, k)})
@@ -208,8 +212,10 @@ def _decide(ctx, tlc, traces):
     consts = {"MaxN": 99, "MaxChunks": 999, "MaxLoads": 999, "Arith": False, "Export": False}
     bad = validate(ctx, "TraceDistChunks", ok, decide=None, next_="TNext", init="TInit", constants=dict(consts, Strict=False), note="what C07 states")
     before = ctx.traces
-    drift = validate(ctx, "TraceDistChunks", ok, decide=None, next_="TNext", init="TInit", constants=dict(consts, Strict=True),
+    small = [i for i, t in enumerate(ok) if t.get("n", 0) < 100]          # (DistChunks.tla codes a pair as 100 * i + j + 1)
+    drift = validate(ctx, "TraceDistChunks", [ok[i] for i in small], decide=None, next_="TNext", init="TInit", constants=dict(consts, Strict=True),
                      note="chunk boundaries and entry order of DistChunks.tla")
+    drift = [(small[i], c) for i, c in drift]
     ctx.traces = before
     only = [d for d in drift if d[0] not in {b[0] for b in bad}]
     ctx.extra["model_drift"] = len(only)
